@@ -118,3 +118,35 @@ A(M("c03-angle-only-one", "C03", AN, "            HYDROGEN_BOND_ANGLE_RANGE[0] <
 A(M("c03-normal-atoms", "C03", TT, '            n7 = self.find_atom("N7")\n            n3 = self.find_atom("N3")', '            n7 = self.find_atom("N7")\n            n3 = self.find_atom("N1")', "base-normal"))
 A(M("c03-inline-const-silent", "C03", AN, "kdtree.query_pairs(HYDROGEN_BOND_MAX_DISTANCE)", "kdtree.query_pairs(4.0)", kind="silent"))
 A(M("c03-window-split-silent", "C03", AN, "        if (\n            HYDROGEN_BOND_ANGLE_RANGE[0] < angle1 < HYDROGEN_BOND_ANGLE_RANGE[1]\n            and HYDROGEN_BOND_ANGLE_RANGE[0] < angle2 < HYDROGEN_BOND_ANGLE_RANGE[1]\n        ):", "        lo, hi = HYDROGEN_BOND_ANGLE_RANGE\n        if (lo <= angle1 <= hi) and not (angle2 < lo or angle2 > hi):", kind="silent"))
+
+# ---------------------------------------------------------------- C04
+A(M("c04-radius", "C04", AN, "STACKING_MAX_DISTANCE = 6.0", "STACKING_MAX_DISTANCE = 5.5", "stack-radius"))
+A(M("c04-normals-35", "C04", AN, "STACKING_MAX_ANGLE_BETWEEN_NORMALS = 35.0", "STACKING_MAX_ANGLE_BETWEEN_NORMALS = 30.0", "stack-normals"))
+A(M("c04-offset-45", "C04", AN, "STACKING_MAX_ANGLE_BETWEEN_VECTOR_AND_NORMAL = 45.0", "STACKING_MAX_ANGLE_BETWEEN_VECTOR_AND_NORMAL = 40.0", "stack-offset"))
+A(M("c04-min-max-1", "C04", AN, "        angle = min(\n            [\n                angle_between_vectors(normal_i, normal_j),", "        angle = max(\n            [\n                angle_between_vectors(normal_i, normal_j),", "stack-normals"))
+A(M("c04-min-max-2", "C04", AN, "        angle = min(\n            angle_between_vectors(vector, normal_i),", "        angle = max(\n            angle_between_vectors(vector, normal_i),", "stack-offset"))
+A(M("c04-no-degrees", "C04", AN, "if math.degrees(angle) > STACKING_MAX_ANGLE_BETWEEN_NORMALS:", "if angle > STACKING_MAX_ANGLE_BETWEEN_NORMALS:", "stack-normals"))
+A(M("c04-dot-sign", "C04", AN, "numpy.dot(normal_i, normal_j) > 0.0", "numpy.dot(normal_i, normal_j) < 0.0", "stack-direction"))
+A(M("c04-label-group", "C04", AN, '                pairs.append((residue_i, residue_j, "inward"))', '                pairs.append((residue_i, residue_j, "downward"))', "stack-labels"))
+A(M("c04-else-order", "C04", AN, '                pairs.append((residue_j, residue_i, "outward"))', '                pairs.append((residue_i, residue_j, "outward"))', "stack-labels"))
+A(M("c04-unsorted", "C04", AN, "for residue_i, residue_j, topology in sorted(pairs):", "for residue_i, residue_j, topology in pairs:", "stack-emission"))
+A(M("c04-centroid-den", "C04", AN, "sum(ys) / len(ys)", "sum(ys) / len(base_atoms)", "centroid-mean"))
+A(M("c04-vector-axis", "C04", AN, "for k in (0, 1, 2)])", "for k in (0, 1)])", "stack-offset-vector"))
+A(M("c04-normal-j-twice", "C04", AN, "            angle_between_vectors(vector, normal_i),\n            angle_between_vectors(vector, normal_j),", "            angle_between_vectors(vector, normal_j),\n            angle_between_vectors(vector, normal_j),", ["stack-offset", "stack-extra-filter"]))
+A(M("c04-ifexp-silent", "C04", AN, '        if residue_i < residue_j:\n            if same_direction:\n                pairs.append((residue_i, residue_j, "upward"))\n            else:\n                pairs.append((residue_i, residue_j, "inward"))\n        else:\n            if same_direction:\n                pairs.append((residue_j, residue_i, "downward"))\n            else:\n                pairs.append((residue_j, residue_i, "outward"))\n', '        if residue_i < residue_j:\n            pairs.append((residue_i, residue_j, "upward" if same_direction else "inward"))\n        else:\n            pairs.append((residue_j, residue_i, "downward" if same_direction else "outward"))\n', kind="silent"))
+
+# ---------------------------------------------------------------- C11
+A(M("c11-unsorted-bp", "C11", AN, "for residue_i, residue_j, lw in sorted(base_base_pairs):", "for residue_i, residue_j, lw in base_base_pairs:", "sorted-emission"))
+A(M("c11-unsorted-bph", "C11", AN, "bph_map = merge_and_clean_bph_br(sorted(base_phosphate_pairs))", "bph_map = merge_and_clean_bph_br(base_phosphate_pairs)", "sorted-emission"))
+A(M("c11-drop-same-auth", ["C11", "C03"], AN, "        if (\n            atom_i.auth is not None\n            and atom_i.auth is not None\n            and atom_i.auth == atom_j.auth\n        ):\n            continue\n", "", "contact-skips"))
+A(M("c11-saenger-asym", "C11", C, '            ("AG", "tWS"): "X",', '            ("AG", "tWS"): "XI",', "saenger-symmetric"))
+A(M("c11-saenger-value", "C11", C, '            ("GG", "tSS"): "IV",', '            ("GG", "tSS"): "IIII",', "saenger-values"))
+A(M("c11-truncation", "C11", AN, "        if len(bphs_brs) > 1:\n            bph_br_map[key] = OrderedSet([bphs_brs[0]])\n", "        pass\n", ["bph-one-class", "bph-merge"]))
+A(M("c11-merge-rule", "C11", AN, "        if 7 in bphs_brs and 9 in bphs_brs:\n            bphs_brs.remove(7)\n            bphs_brs.remove(9)\n            bphs_brs.add(8)\n", "        if 7 in bphs_brs and 9 in bphs_brs:\n            bphs_brs.remove(7)\n            bphs_brs.add(8)\n", "bph-merge"))
+A(M("c11-class-branch", "C11", AN, '        if donor.name == "C5":\n            return 9\n        if donor.name == "C6":\n            return 0\n\n    if donor_residue.one_letter_name == "U":', '        if donor.name == "C6":\n            return 0\n\n    if donor_residue.one_letter_name == "U":', "bph-class-table"))
+A(M("c11-class-value", "C11", AN, '        if donor.name == "N1":\n            return 5\n', '        if donor.name == "N1":\n            return 4\n', "bph-class-table"))
+A(M("c11-roles-swapped", "C11", AN, "            if type_i == \"donor\":\n                donor_residue, acceptor_residue = residue_i, residue_j\n                donor_atom, acceptor_atom = atom_i, atom_j\n            else:\n                donor_residue, acceptor_residue = residue_j, residue_i\n                donor_atom, acceptor_atom = atom_j, atom_i\n            bph =", "            if type_i == \"donor\":\n                donor_residue, acceptor_residue = residue_j, residue_i\n                donor_atom, acceptor_atom = atom_i, atom_j\n            else:\n                donor_residue, acceptor_residue = residue_j, residue_i\n                donor_atom, acceptor_atom = atom_j, atom_i\n            bph =", "bph-roles"))
+A(M("c11-fields-swapped", "C11", AN, "return BaseInteractions(base_pairs, stackings, base_ribose, base_phosphate, [])", "return BaseInteractions(base_pairs, stackings, base_phosphate, base_ribose, [])", "result-order"))
+A(M("c11-lw-reverse", "C11", C, 'return LeontisWesthof[f"{self.name[0]}{self.name[2]}{self.name[1]}"]', 'return LeontisWesthof[f"{self.name[0]}{self.name[1]}{self.name[2]}"]', "lw-reverse"))
+A(M("c11-split-60", "C11", AN, "                return 1 if -90.0 < torsion < 90.0 else 3", "                return 1 if -60.0 < torsion < 60.0 else 3", "bph-split"))
+A(M("c11-saenger-key-order", "C11", AN, 'key = (f"{residue_i.one_letter_name}{residue_j.one_letter_name}", lw.value)', 'key = (f"{residue_j.one_letter_name}{residue_i.one_letter_name}", lw.value)', "saenger-lookup"))
